@@ -56,6 +56,10 @@ add('C21', 'exploration',
     'TLA+ spec External.tla composed with the chain rules of RunModes.tla: expected exit number and whether the command after && / || / inside try runs, for each exit code and signal; each row executed with a real child process through the real interpreter',
     'Exit codes (15 spread values; thorough 0-255) and signals 1-15 of a helper process x {alone, && marker, || marker, try{...; marker}}: exit number and marker execution must equal the TLC table. The helper\'s real wait status is verified independently before a row is judged.',
     'rows whose helper does not die the intended way on this kernel are discarded', 'DESIGN §6 C21')
+add('C39', 'exploration',
+    'TLA+ spec Control.tla: structured meaning with completion records evaluated by TLC for a family of nested foreach/if/function programs with break/continue/return, exported as a table; every program run by the real interpreter and compared',
+    '132 programs (outer loop x optional inner loop x control statement kind and position in each) x 2 call contexts: printed tags and function exit number must equal the structured meaning computed by TLC.',
+    'foreach loops over JSON literals; block names foreach/if/function name; while/switch not covered', 'DESIGN §6 C39')
 
 
 def main():
